@@ -67,6 +67,14 @@ trait Store {
     fn maintain(&mut self, _i: usize) -> Option<(&'static str, bool)> {
         None
     }
+    /// a wrapper's inner store changed behind the wrapper's back (inner_mut().put / .remove); the record is
+    /// given in the form the wrapper itself would have stored it
+    fn inner_put(&mut self, _d: &[u8]) -> Option<R<u32>> {
+        None
+    }
+    fn inner_remove(&mut self, _id: u32) -> Option<R<()>> {
+        None
+    }
     /// a second way to empty the store (DictZipBlobStore::load_dictionary documents that it clears the storage)
     fn clear2(&mut self) -> Option<(&'static str, bool)> {
         None
@@ -138,6 +146,10 @@ struct W<S: BlobStore> {
     maint: Vec<(&'static str, fn(&mut S) -> bool)>,
     clear2: Option<(&'static str, fn(&mut S) -> bool)>,
     shape: Option<fn(&S, &[u32]) -> Value>,
+    inner_put: Option<fn(&mut S, &[u8]) -> R<u32>>,
+    inner_remove: Option<fn(&mut S, u32) -> R<()>>,
+    /// unwrap (into_inner / reopen) and wrap again, in place
+    rewrap: Option<fn(&mut S) -> bool>,
     stored: Option<fn(&S, u32) -> Option<usize>>,
     clear: Option<fn(&mut S)>,
     reload: Option<fn(&S) -> R<S>>,
@@ -145,7 +157,7 @@ struct W<S: BlobStore> {
 }
 impl<S: BlobStore> W<S> {
     fn new(s: S) -> W<S> {
-        W { s, batch: None, getb: None, rmb: None, iter: None, iterb: None, maint: vec![], clear2: None, shape: None, stored: None, clear: None, reload: None, _dir: None }
+        W { s, batch: None, getb: None, rmb: None, iter: None, iterb: None, maint: vec![], clear2: None, shape: None, inner_put: None, inner_remove: None, rewrap: None, stored: None, clear: None, reload: None, _dir: None }
     }
     fn stored(mut self, f: fn(&S, u32) -> Option<usize>) -> Self {
         self.stored = Some(f);
@@ -226,6 +238,12 @@ impl<S: BlobStore> Store for W<S> {
     fn clear2(&mut self) -> Option<(&'static str, bool)> {
         self.clear2.map(|(n, f)| (n, f(&mut self.s)))
     }
+    fn inner_put(&mut self, d: &[u8]) -> Option<R<u32>> {
+        self.inner_put.map(|f| f(&mut self.s, d))
+    }
+    fn inner_remove(&mut self, id: u32) -> Option<R<()>> {
+        self.inner_remove.map(|f| f(&mut self.s, id))
+    }
     fn mixed_shape(&self, ids: &[u32]) -> Option<Value> {
         self.shape.map(|f| f(&self.s, ids))
     }
@@ -251,6 +269,9 @@ impl<S: BlobStore> Store for W<S> {
         }
     }
     fn saveload(&mut self) -> Option<R<()>> {
+        if let Some(f) = self.rewrap {
+            return Some(if f(&mut self.s) { Ok(()) } else { Err(()) });
+        }
         let f = self.reload?;
         Some(match f(&self.s) {
             Ok(n) => {
@@ -954,6 +975,14 @@ fn bulk_subjects() -> Vec<String> {
         v.push(format!("triebuild:{c}"));
     }
     // coverage round: twins of the builders, build_from_* constructors, ids at the end of the id space, config extremes
+    // wrappers over an inner store that is ALREADY POPULATED, changed through inner_mut(), unwrapped and wrapped again
+    for x in [
+        "wrap:cached_mem_filled", "wrap:cached_mem_from_data", "wrap:cached_back_mem", "wrap:cached_around_mem", "wrap:cached_shared_mem",
+        "wrap:cached_disabled_mem", "wrap:cached_plain_reopened", "wrap:cached_dictzip", "wrap:cached_zstd_mem", "wrap:zstd_mem", "wrap:zstd_plain",
+        "wrap:zstd_zstd_mem", "wrap:zstd_cached_mem", "wrap:huff_mem", "wrap:huff_trained_mem", "wrap:rans_mem", "wrap:dict_mem",
+    ] {
+        v.push(x.into());
+    }
     for x in [
         "zipoffset:add_records", "zipoffset:with_pool", "zipoffset:default+savefile", "zipoffset:batch4_flush",
         "simplezip:frag1_1", "simplezip:frag_1mb", "simplezip:frag1k_1k", "simplezip:frag_64k_m1", "simplezip:frag_64k", "simplezip:frag_64k1",
@@ -1224,6 +1253,274 @@ fn build(name: &str, recs: &[Vec<u8>]) -> Result<(Box<dyn Store>, Built), String
     Ok((store, built))
 }
 
+/// the bytes a ZstdBlobStore of that level keeps in its inner store for `d` (taken from a scratch store of the same type)
+fn zstd_stored(level: i32, d: &[u8]) -> R<Vec<u8>> {
+    let mut t = ZstdBlobStore::new(MemoryBlobStore::new(), level);
+    let id = t.put(d).map_err(|_| ())?;
+    t.inner().get(id).map_err(|_| ())
+}
+
+/// A wrapper created over an inner store that already holds `recs`; returns the ids the inner store handed out.
+fn make_wrapped(name: &str, seed: u64, recs: &[Vec<u8>]) -> Option<(Box<dyn Store>, Vec<u32>)> {
+    let var = name.strip_prefix("wrap:")?;
+    let fill = |s: &mut dyn BlobStore| -> Option<Vec<u32>> { recs.iter().map(|r| s.put(r).ok()).collect() };
+    let cached_over_mem = |m: MemoryBlobStore, ids: Vec<u32>, strat: CacheWriteStrategy, shared: bool, disabled: bool| -> Option<(Box<dyn Store>, Vec<u32>)> {
+        let mut c = if shared {
+            let cache = std::sync::Arc::new(zipora::cache::LruPageCache::new(PageCacheConfig::memory_optimized()).ok()?);
+            CachedBlobStore::with_cache_and_strategy(m, cache, strat).ok()?
+        } else {
+            CachedBlobStore::with_write_strategy(m, PageCacheConfig::memory_optimized(), strat).ok()?
+        };
+        if disabled {
+            c.disable_cache();
+        }
+        let mut w = W::new(c);
+        w.inner_put = Some(|s, d| s.inner_mut().put(d).map_err(|_| ()));
+        w.inner_remove = Some(|s, id| s.inner_mut().remove(id).map_err(|_| ()));
+        Some((w.boxed(), ids))
+    };
+    Some(match var {
+        "cached_mem_filled" | "cached_back_mem" | "cached_around_mem" | "cached_shared_mem" | "cached_disabled_mem" => {
+            let mut m = MemoryBlobStore::new();
+            let ids = fill(&mut m)?;
+            let strat = match var {
+                "cached_back_mem" => CacheWriteStrategy::WriteBack,
+                "cached_around_mem" => CacheWriteStrategy::WriteAround,
+                _ => CacheWriteStrategy::WriteThrough,
+            };
+            return cached_over_mem(m, ids, strat, var == "cached_shared_mem", var == "cached_disabled_mem");
+        }
+        "cached_mem_from_data" => {
+            let ids: Vec<u32> = (0..recs.len() as u32).map(|i| i * 3 + 1).collect();
+            let m = MemoryBlobStore::from_data(ids.iter().copied().zip(recs.iter().cloned()).collect());
+            return cached_over_mem(m, ids, CacheWriteStrategy::WriteThrough, false, false);
+        }
+        "cached_plain_reopened" => {
+            let d = TmpDir::new("wrapplain");
+            let ids = {
+                let mut p = PlainBlobStore::create_new(&d.0).ok()?;
+                fill(&mut p)?
+            };
+            let mut w = W::new(CachedBlobStore::new(PlainBlobStore::new(&d.0).ok()?, PageCacheConfig::memory_optimized()).ok()?);
+            w.inner_put = Some(|s, d| s.inner_mut().put(d).map_err(|_| ()));
+            w.inner_remove = Some(|s, id| s.inner_mut().remove(id).map_err(|_| ()));
+            w.rewrap = Some(|s| {
+                let dir = s.inner().base_dir().to_path_buf();
+                match PlainBlobStore::new(&dir).ok().and_then(|p| CachedBlobStore::new(p, PageCacheConfig::memory_optimized()).ok()) {
+                    Some(n) => {
+                        *s = n;
+                        true
+                    }
+                    None => false,
+                }
+            });
+            w._dir = Some(d);
+            (w.boxed(), ids)
+        }
+        "cached_dictzip" => {
+            let mut dz = dictzip(dz_small(10), seed)?;
+            let ids = fill(&mut dz)?;
+            let mut w = W::new(CachedBlobStore::new(dz, PageCacheConfig::memory_optimized()).ok()?);
+            w.inner_put = Some(|s, d| s.inner_mut().put(d).map_err(|_| ()));
+            w.inner_remove = Some(|s, id| s.inner_mut().remove(id).map_err(|_| ()));
+            (w.boxed(), ids)
+        }
+        "cached_zstd_mem" => {
+            let mut z = ZstdBlobStore::new(MemoryBlobStore::new(), 3);
+            let ids = fill(&mut z)?;
+            let mut w = W::new(CachedBlobStore::with_write_strategy(z, PageCacheConfig::memory_optimized(), CacheWriteStrategy::WriteBack).ok()?);
+            w.inner_put = Some(|s, d| s.inner_mut().put(d).map_err(|_| ()));
+            w.inner_remove = Some(|s, id| s.inner_mut().remove(id).map_err(|_| ()));
+            (w.boxed(), ids)
+        }
+        // ZstdBlobStore: the populated inner store comes out of another wrapper of the same type (into_inner),
+        // so it holds what this wrapper type stores; re-wrap = into_inner -> new
+        "zstd_mem" => {
+            let mut z = ZstdBlobStore::new(MemoryBlobStore::new(), 3);
+            let ids = fill(&mut z)?;
+            let mut w = W::new(ZstdBlobStore::new(z.into_inner(), 3)).batching().iterable().stored(zstd_inner_size);
+            w.inner_put = Some(|s, d| {
+                let b = zstd_stored(s.compression_level(), d)?;
+                s.inner_mut().put(&b).map_err(|_| ())
+            });
+            w.inner_remove = Some(|s, id| s.inner_mut().remove(id).map_err(|_| ()));
+            w.rewrap = Some(|s| {
+                let lvl = s.compression_level();
+                let old = std::mem::replace(s, ZstdBlobStore::new(MemoryBlobStore::new(), lvl));
+                *s = ZstdBlobStore::new(old.into_inner(), lvl);
+                true
+            });
+            (w.boxed(), ids)
+        }
+        "zstd_plain" => {
+            let d = TmpDir::new("wrapzplain");
+            let ids = {
+                let mut z = ZstdBlobStore::new(PlainBlobStore::create_new(&d.0).ok()?, 3);
+                fill(&mut z)?
+            };
+            let mut w = W::new(ZstdBlobStore::new(PlainBlobStore::new(&d.0).ok()?, 3)).batching().iterable().stored(zstd_inner_size);
+            w.inner_put = Some(|s, d| {
+                let b = zstd_stored(s.compression_level(), d)?;
+                s.inner_mut().put(&b).map_err(|_| ())
+            });
+            w.inner_remove = Some(|s, id| s.inner_mut().remove(id).map_err(|_| ()));
+            w.rewrap = Some(|s| match zstd_plain_reopen(s) {
+                Ok(n) => {
+                    *s = n;
+                    true
+                }
+                Err(()) => false,
+            });
+            w._dir = Some(d);
+            (w.boxed(), ids)
+        }
+        "zstd_zstd_mem" => {
+            let mut z = ZstdBlobStore::new(ZstdBlobStore::new(MemoryBlobStore::new(), 3), 1);
+            let ids = fill(&mut z)?;
+            let mut w = W::new(ZstdBlobStore::new(z.into_inner(), 1)).batching().iterable().stored(zstd_inner_size);
+            // the inner store is itself a wrapper: a record put into IT must be what the outer wrapper stores
+            w.inner_put = Some(|s, d| {
+                let b = zstd_stored(s.compression_level(), d)?;
+                s.inner_mut().put(&b).map_err(|_| ())
+            });
+            w.inner_remove = Some(|s, id| s.inner_mut().remove(id).map_err(|_| ()));
+            w.rewrap = Some(|s| {
+                let old = std::mem::replace(s, ZstdBlobStore::new(ZstdBlobStore::new(MemoryBlobStore::new(), 3), 1));
+                *s = ZstdBlobStore::new(old.into_inner(), 1);
+                true
+            });
+            (w.boxed(), ids)
+        }
+        "zstd_cached_mem" => {
+            let mut z = ZstdBlobStore::new(MemoryBlobStore::new(), 3);
+            let ids = fill(&mut z)?;
+            let c = CachedBlobStore::new(z.into_inner(), PageCacheConfig::memory_optimized()).ok()?;
+            let mut w = W::new(ZstdBlobStore::new(c, 3)).stored(zstd_inner_size);
+            w.inner_put = Some(|s, d| {
+                let b = zstd_stored(s.compression_level(), d)?;
+                s.inner_mut().inner_mut().put(&b).map_err(|_| ()) // two layers down
+            });
+            w.inner_remove = Some(|s, id| s.inner_mut().inner_mut().remove(id).map_err(|_| ()));
+            (w.boxed(), ids)
+        }
+        // the entropy wrappers have no inner accessors: only "wrap a populated store"
+        "huff_mem" | "huff_trained_mem" | "rans_mem" | "dict_mem" => {
+            let mut m = MemoryBlobStore::new();
+            let ids = fill(&mut m)?;
+            let b: Box<dyn Store> = match var {
+                "huff_mem" => W::new(HuffmanBlobStore::new(m)).boxed(),
+                "huff_trained_mem" => {
+                    let mut h = HuffmanBlobStore::new(m);
+                    h.add_training_data(&training("trained_text", seed));
+                    h.build_tree().ok()?;
+                    W::new(h).boxed()
+                }
+                "rans_mem" => {
+                    let mut r = RansBlobStore::new(m);
+                    r.train(&training("all", seed)).ok()?;
+                    W::new(r).boxed()
+                }
+                _ => {
+                    let mut x = DictionaryBlobStore::new(m);
+                    x.train(&training("all", seed)).ok()?;
+                    W::new(x).boxed()
+                }
+            };
+            (b, ids)
+        }
+        _ => return None,
+    })
+}
+
+/// a wrapper over an already populated inner store: every record is probed before the wrapper writes anything;
+/// then wrapper operations interleaved with changes through inner_mut() and unwrap -> wrap again
+fn wrapped_run(tr: &mut Tracer, c: &mut Counters, a: &Args, name: &str, run: usize, n: usize, steps: usize) {
+    let mut rng = Rng::new(a.seed).derive(&format!("{name}/wrapped/{run}"));
+    let mut fams: Vec<&'static str> = vec!["one", "eq32", "text", "rand_small", "thresh", "zeros4k"];
+    if !name.contains("dictzip") {
+        fams.push("empty"); // DictZipBlobStore refuses empty records
+    }
+    let recs: Vec<Vec<u8>> = (0..n).map(|_| payload(&fams, &mut rng)).collect();
+    let dj: Vec<Value> = recs.iter().map(|d| digest(d)).collect();
+    tr.reset("blobstore", name, json!({"fam":fam_of(name),"variant":variant_of(name),"regime":"wrapped","n":n,"seed":a.seed,"keyed":false}));
+    c.runs += 1;
+    let (mut s, ids) = match guard(|| make_wrapped(name, a.seed, &recs)) {
+        Ok(Some(x)) => x,
+        Ok(None) => {
+            emit(tr, c, json!({"op":"build_at","ids":[],"ds":dj,"ok":false,"len_after":0}));
+            return;
+        }
+        Err(msg) => {
+            emit(tr, c, json!({"op":"panic","in":"build","msg":msg.chars().take(160).collect::<String>()}));
+            return;
+        }
+    };
+    let len_after = guard(|| s.len()).unwrap_or(usize::MAX >> 40);
+    let mut alive = emit(tr, c, json!({"op":"build_at","ids":ids,"ds":dj,"ok":true,"len_after":len_after}));
+    let mut issued = ids.clone();
+    // before any write of the wrapper itself: every observer, every record
+    let first = [Op::Probe(&probe_ids(&issued)), Op::GetBatch(&probe_ids(&issued)), Op::IterIds, Op::IterBlobs, Op::Len];
+    for op in first.iter() {
+        if alive {
+            alive = exec(&mut s, op).map_or(true, |e| emit(tr, c, e));
+        }
+    }
+    for id in issued.clone().iter().take(3) {
+        for op in [Op::Contains(*id), Op::Size(*id), Op::Get(*id)] {
+            if alive {
+                alive = exec(&mut s, &op).map_or(true, |e| emit(tr, c, e));
+            }
+        }
+    }
+    for _ in 0..steps {
+        if !alive {
+            break;
+        }
+        let pick = |rng: &mut Rng, issued: &[u32]| if issued.is_empty() || rng.chance(1, 8) { *rng.pick(NEVER) } else { *rng.pick(issued) };
+        let ev = match rng.below(100) {
+            0..=13 => {
+                let d = payload(&fams, &mut rng);
+                exec(&mut s, &Op::Put(&d))
+            }
+            14..=27 => {
+                let d = payload(&fams, &mut rng);
+                exec(&mut s, &Op::InnerPut(&d))
+            }
+            28..=35 => exec(&mut s, &Op::Remove(pick(&mut rng, &issued))),
+            36..=45 => exec(&mut s, &Op::InnerRemove(pick(&mut rng, &issued))),
+            46..=55 => exec(&mut s, &Op::Get(pick(&mut rng, &issued))),
+            56..=65 => exec(&mut s, &Op::Contains(pick(&mut rng, &issued))),
+            66..=71 => exec(&mut s, &Op::Size(pick(&mut rng, &issued))),
+            72..=75 => exec(&mut s, &Op::Len),
+            76..=79 => {
+                let v: Vec<u32> = (0..3).map(|_| pick(&mut rng, &issued)).collect();
+                exec(&mut s, &Op::GetBatch(&v))
+            }
+            80..=82 => exec(&mut s, &Op::IterIds),
+            83..=87 => exec(&mut s, &Op::SaveLoad), // unwrap -> wrap again
+            _ => exec(&mut s, &Op::Probe(&probe_ids(&issued))),
+        };
+        if let Some(e) = ev {
+            if e["op"] == "put" && e["ok"] == json!(true) {
+                if let Some(id) = e["id"].as_u64() {
+                    if !issued.contains(&(id as u32)) {
+                        issued.push(id as u32);
+                    }
+                }
+            }
+            alive = emit(tr, c, e);
+        }
+    }
+    for op in [Op::SaveLoad, Op::Probe(&probe_ids(&issued)), Op::GetBatch(&probe_ids(&issued)), Op::IterIds] {
+        if alive {
+            alive = exec(&mut s, &op).map_or(true, |e| emit(tr, c, e));
+        }
+    }
+    if !alive {
+        std::mem::forget(s);
+    }
+}
+
 fn fam_of(name: &str) -> String {
     name.split(':').next().unwrap_or("").to_string()
 }
@@ -1242,6 +1539,8 @@ enum Op<'a> {
     RemoveBatch(&'a [u32]),
     IterIds,
     IterBlobs,
+    InnerPut(&'a [u8]),
+    InnerRemove(u32),
     Maintain(usize),
     Clear2,
     MixedShape(&'a [u32]),
@@ -1269,6 +1568,8 @@ impl Op<'_> {
             Op::RemoveBatch(_) => "remove_batch",
             Op::IterIds => "iter_ids",
             Op::IterBlobs => "iter_blobs",
+            Op::InnerPut(_) => "put",
+            Op::InnerRemove(_) => "remove",
             Op::Maintain(_) => "maintenance",
             Op::Clear2 => "clear",
             Op::MixedShape(_) => "mixed_shape",
@@ -1350,6 +1651,12 @@ fn exec(s: &mut Box<dyn Store>, op: &Op) -> Option<Value> {
                 }
                 Err(()) => json!({"op":"iter_blobs","ok":false,"r":[]}),
             },
+            // the same contract actions as put / remove: the abstract store is what the inner store holds
+            Op::InnerPut(d) => match s.inner_put(d)? {
+                Ok(id) => json!({"op":"put","via":"inner_mut","d":digest(d),"ok":true,"id":id,"stored":[]}),
+                Err(()) => json!({"op":"put","via":"inner_mut","d":digest(d),"ok":false,"id":0,"stored":[]}),
+            },
+            Op::InnerRemove(id) => json!({"op":"remove","via":"inner_mut","id":id,"ok":s.inner_remove(*id)?.is_ok()}),
             Op::Maintain(i) => {
                 let (what, ok) = s.maintain(*i)?;
                 json!({"op":"maintenance","what":what,"ok":ok})
@@ -2158,6 +2465,19 @@ fn isolated(a: &Args, name: &str) -> bool {
 }
 
 fn drive_bulk(tr: &mut Tracer, c: &mut Counters, a: &Args, name: &str, thorough: bool) {
+    if name.starts_with("wrap:") {
+        let io = name.contains("plain");
+        let runs = match (thorough, io) {
+            (false, false) => 5,
+            (false, true) => 2,
+            (true, false) => 40,
+            (true, true) => 8,
+        };
+        for run in 0..runs {
+            wrapped_run(tr, c, a, name, run, [0, 1, 5, 12, 40][run % 5], if io { 30 } else { 60 });
+        }
+        return;
+    }
     let sizes: Vec<usize> = if thorough {
         vec![0, 1, 2, 63, 64, 65, 127, 128, 129, 255, 256, 257, 511, 512, 513, 1023, 1024, 1025, 4097]
     } else {
